@@ -16,7 +16,7 @@ from common import substream, sha1, run_eval
 PROPERTY = "C07"
 LEVEL = "fault_enumeration"
 
-FORMS = ("throw_str", "throw_obj", "throw_err", "null_prop", "call_nonfn", "undef_ident", "null_prop_mid",
+FORMS = ("throw_str", "throw_obj", "throw_err", "throw_undef", "throw_null", "null_prop", "call_nonfn", "undef_ident", "null_prop_mid",
          # errors raised by built-ins
          "json_parse", "regexp_ctor", "match_bad_pattern", "reduce_empty")
 LOOPS = ("for", "while", "dowhile", "forin", "forof")
@@ -242,6 +242,10 @@ def _thr(form, k):
         return "if (d(%d)) throw {tag:%d};" % (k, k)
     if form == "throw_err":
         return "if (d(%d)) throw new Error('E%d');" % (k, k)
+    if form == "throw_undef":
+        return "if (d(%d)) throw undefined;" % k
+    if form == "throw_null":
+        return "if (d(%d)) throw null;" % k
     if form == "null_prop":
         return "(d(%d) ? null : O).x;" % k
     if form == "call_nonfn":
@@ -431,6 +435,10 @@ class Model:
                 raise JSThrow("obj:%d" % k, None)
             if form == "throw_err":
                 raise JSThrow("Error|E%d" % k, "E%d" % k)
+            if form == "throw_undef":
+                raise JSThrow("other:undefined", None)
+            if form == "throw_null":
+                raise JSThrow("other:object", None)
             if form in ("null_prop", "call_nonfn", "null_prop_mid"):
                 raise JSThrow("TypeError|TypeError|true", None)
             if form == "undef_ident":
